@@ -168,13 +168,17 @@ def gen_cases(ctx, pe, rng, n):
       base = dict(stages=stages, pre=[idx[apply_rules(pre, nm)] for nm in NAMES], post=[idx[apply_rules(post, nm)] for nm in NAMES],
                   agg=[sorted(set(idx[a] for a, b in agg if b == nm)) for nm in NAMES], fwd=1 if fwd else 0,
                   text=dict(daemon=daemon, pre=pre, post=post, aggregation=agg, forward_all=fwd))
+      procs = pe.state.pipeline_processors
+      if len(procs) != len(stages):
+        ctx.violation('setupPipeline() installed %d processors for carbon-%s (%s), the daemon\'s pipeline has %d stages (%s)' % (
+                        len(procs), daemon, [getattr(type(x), 'plugin_name', type(x).__name__) for x in procs], len(stages), DAEMONS[daemon]),
+                      dict(daemon=daemon), signature='pipeline-wiring')
+        continue
       for q in range(5):
         name = rng.choice(NAMES)
         fail_at = rng.randint(1, len(stages)) if rng.random() < 0.3 else 0
         value = float(1000 * k + q + 1)
         procs = pe.state.pipeline_processors
-        if len(procs) != len(stages):
-          raise Machinery('setupPipeline installed %d processors for %s' % (len(procs), daemon))
         saved = None
         if fail_at:
           target = procs[fail_at - 1]
